@@ -308,7 +308,8 @@ META = {
 
 MANIFEST_ENTRY = {
     'text': 'Lagrange delta property with symbolic knots; derivative/integral identities with symbolic bounds; hierarchisation followed by interpolation on the real local and global basis grids '
-            'with an uninterpreted vector-valued function - reproduction of all nodal values is a linear-arithmetic validity query over all functions.',
+            'with an uninterpreted vector-valued function - reproduction of all nodal values is a linear-arithmetic validity query over all functions; also on sub-areas of the grid domain and for one grid '
+            'object that is given the same coordinates with another refinement tree (solver-chosen pairs of trees).',
     'note': 'Trusted: z3, LIFT proxies/numpy facade, the exact linear-solve stand-in for numpy.linalg.solve.',
 }
 
